@@ -110,8 +110,16 @@ def d_expr(e):
     return "forloop.counter"
 
 
+def d_arg(e):
+    """a tag ARGUMENT: a variable is spelled either bare (`x`) or as a quoted nested expression (`"{{ x }}"`, which django-components
+    resolves to the variable's own value); which spelling is a fixed function of the name, so printing stays deterministic"""
+    if e[0] == "var" and sum(map(ord, e[1])) % 3 == 0:
+        return '"{{ %s }}"' % e[1]
+    return d_expr(e)
+
+
 def d_kw(kw):
-    return "".join(" %s=%s" % (k, d_expr(e)) for k, e in kw)
+    return "".join(" %s=%s" % (k, d_arg(e)) for k, e in kw)
 
 
 def d_tpls(ts, dynamic=False):
@@ -135,7 +143,7 @@ def d_tpl(t, dynamic=False):
             t[1], " default" if t[2] else "", " required" if t[3] else "", d_kw(t[4]), d_tpls(t[5], dynamic))
     if k == "fill":
         return "{%% fill %s%s%s %%}%s{%% endfill %%}" % (
-            d_expr(t[1]), ' data="%s"' % t[2] if t[2] else "", ' default="%s"' % t[3] if t[3] else "", d_tpls(t[4], dynamic))
+            d_arg(t[1]), ' data="%s"' % t[2] if t[2] else "", ' default="%s"' % t[3] if t[3] else "", d_tpls(t[4], dynamic))
     if k == "comp":
         head = ('"dynamic" is="%s"' % t[1]) if dynamic else '"%s"' % t[1]
         return "{%% component %s%s%s %%}%s{%% endcomponent %%}" % (head, d_kw(t[2]), " only" if t[3] else "", d_tpls(t[4], dynamic))
